@@ -27,7 +27,7 @@ LEVEL_NOTE = ("battery pool stubbed at _data_pipeline.new_battery_pool (bounds c
 RULE = ("random histories of 3-40 events over 1-2 component groups, 1-3 regular and 1-2 operating-point actors with "
         "distinct priorities; plus the two documented operating-point tables as fixed cases. distinct = canonical "
         "history JSON; non-trivial = >=1 request observed after both resolvers hold a target")
-REQUIRED_BUCKETS = ["manager-created-by-the-power-wrapper", "proposals-issued-in-one-loop-iteration", "two-actors-with-the-same-priority", "manager-of:pv", "manager-of:ev",
+REQUIRED_BUCKETS = ["regular-and-operating-point-actor-with-the-same-priority", "manager-created-by-the-power-wrapper", "proposals-issued-in-one-loop-iteration", "two-actors-with-the-same-priority", "manager-of:pv", "manager-of:ev",
                     "bounds-only-step-with-request", "only-one-target-changed", "both-targets-nonzero",
                     "expiry", "partial-failure-resend", "late-partial-failure-resend", "bounds-None", "doc-table", "request-on-bound"]
 REQUIRED_COUNTERS = ["requests_checked", "reported_targets_compared", "reports_checked", "expired_kind_checks"]
@@ -68,6 +68,9 @@ def gen(rng: Any, tier: str, i: int) -> Any:
         actors.append({"src": f"r{j}", "prio": prios[j], "op": False})
     for j in range(n_op):
         actors.append({"src": f"o{j}", "prio": prios[3 + j], "op": True})
+    if rng.random() < 0.2:
+        # an operating-point actor that has the same priority as a regular actor (the two kinds are resolved separately)
+        actors[n_reg]["prio"] = actors[0]["prio"]
     if rng.random() < 0.3:
         # a second regular actor with the same priority as the first (ties are broken by source id); it subscribes
         # to the reports on its own
@@ -326,6 +329,10 @@ def check(case: dict[str, Any], rec: Any) -> None:
         if e["k"] == "prop":
             subscribers.setdefault((e["g"], e["op"]), set()).add(e["src"])
     rec.bucket("manager-of:" + case.get("category", "battery"))
+    pr_reg = {e["prio"] for e in case["events"] if e["k"] == "prop" and not e["op"]}
+    pr_op = {e["prio"] for e in case["events"] if e["k"] == "prop" and e["op"]}
+    if pr_reg & pr_op:
+        rec.bucket("regular-and-operating-point-actor-with-the-same-priority")
     if any(len(v) > len({x for x in v if not x.endswith("b")}) for v in subscribers.values()):
         rec.bucket("two-actors-with-the-same-priority")
     for cid in out.get("pool_requests", []):
